@@ -179,25 +179,29 @@ def menu(info, level):
 
     info: dict(mesh=, n=len(topo), kind='domain'|'product'|'manifold', structured=bool, ndims=, bgroups=[names],
                vgroups=[names])
-    level: 'full' (complete alphabet), 'core' (reduced alphabet used for the deepest layer), 'tail' (the operations
+    level: 'full' (complete alphabet), 'quick' (complete alphabet except that the level set x maxrefine grid is thinned to 15 of 24
+           combinations), 'core' (reduced alphabet used for the deepest layer), 'tail' (the operations
            that close a chain: refined, boundary, interfaces, one refined_by)'''
     n = info['n']
     kind = info['kind']
     ops = []
     if n == 0:
         return ops
-    ops.append(['refined'])
+    small = n * 2 ** info.get('topdim', info['ndims']) <= info.get('cap', 256)     # uniform refinement only while the result stays small
+    if small:
+        ops.append(['refined'])
     if kind == 'product':
-        ops.append(['refine_spaces', ['X']])
-        ops.append(['refine_spaces', ['Y']])
+        if small:
+            ops.append(['refine_spaces', ['X']])
+            ops.append(['refine_spaces', ['Y']])
         ops.append(['boundary'])
         ops.append(['interfaces'])
-        if level == 'full':
+        if level in ('full', 'quick'):
             ops.append(['take', [0, n - 1]])     # documented as unsupported on products: must be loud
             ops.append(['refined_by', [0]])
         return ops
     # hierarchical refinement: every subset if the topology has <= 6 elements
-    if level == 'full':
+    if level in ('full', 'quick'):
         subsets = all_subsets(n) if n <= 6 else subset_family(n)
     elif level == 'core':
         subsets = ([[i] for i in range(n)] + [list(range(n))]) if n <= 6 else subset_family(n)[:4]
@@ -211,36 +215,38 @@ def menu(info, level):
     if level == 'tail':
         return ops
     fam = subset_family(n)
-    takes = (all_subsets(n) if n <= 4 else fam) if level == 'full' else fam[:3]
+    takes = (all_subsets(n) if n <= 4 else fam) if level in ('full', 'quick') else fam[:3]
     for s in takes:
-        if len(s) < n or level == 'full':
+        if len(s) < n or level in ('full', 'quick'):
             ops.append(['take', s])
-    if level == 'full':
+    if level in ('full', 'quick'):
         ops.append(['compress', [i % 2 == 0 for i in range(n)]])
         ops.append(['compress', [i % 3 != 0 for i in range(n)]])
     if info.get('structured') and kind == 'domain':
         for dim in range(info['ndims']):
             ops.append(['slice', [0, 1, None], dim])
-            if level == 'full':
+            if level in ('full', 'quick'):
                 ops.append(['slice', [1, None, None], dim])
                 ops.append(['slice', [None, None, 2], dim])
     for g in info.get('vgroups', []) + info.get('bgroups', []):
         ops.append(['group', g])
     if n >= 2:
         pairs = [([0], [n - 1]), (list(range(n // 2 + 1)), list(range(n // 2, n))), (list(range(0, n, 2)), list(range(1, n, 2)))]
-        if level != 'full':
+        if level not in ('full', 'quick'):
             pairs = pairs[1:2]
         for a, b in pairs:
             ops.append(['union', a, b])
-        diffs = [[0], list(range(n // 2)), list(range(1, n))] if level == 'full' else [[0]]
+        diffs = [[0], list(range(n // 2)), list(range(1, n))] if level in ('full', 'quick') else [[0]]
         for a in diffs:
             ops.append(['diff', a])
     if kind == 'domain':
-        if info['ndims'] <= 2:
+        if info['ndims'] <= 2 and 2 * n <= info.get('cap', 256):
             ops.append(['mul'])
         ls = LEVELSETS[info['mesh']]
         if level == 'full':
             combos = [(a, c, m) for a, c, tag in ls for m in (0, 1, 2)]
+        elif level == 'quick':
+            combos = [(a, c, m) for (a, c, tag), ms in zip(ls, [(0, 1, 2), (0, 1, 2), (0, 1), (0, 1), (0, 1), (0, 1), (1,), ()]) for m in ms]
         else:
             combos = [(a, c, m) for (a, c, tag), ms in zip(ls[:4], [(0, 1), (1,), (1,), (0,)]) for m in ms]
         for a, c, m in combos:
